@@ -296,7 +296,8 @@ let str_result (o : out) : string =
     | RBlocked -> "blocked" | RUnit -> "unit" | RInvalid -> "invalid" | RHang -> "hang" in
   base
 
-type tstate = { pc : int; blocked : (int * bool * bool) option; (* signal id, timed, option-variant *)
+type tstate = { pc : int; sub : int; (* progress inside a call that is several atomic steps (teardown, clone+drop) *)
+                blocked : (int * bool * bool) option; (* signal id, timed, option-variant *)
                 hs : int option; hr : int option; futs : (int * int) list (* local id -> model id *) }
 
 let check_outcome (cap : string) (progs : (int * (string list * string) list) list) : string option =
@@ -308,7 +309,7 @@ let check_outcome (cap : string) (progs : (int * (string list * string) list) li
         let hs = 10 + 2 * t and hr = 11 + 2 * t in
         let a, _ = astep a (LClone (n 0, n hs)) in
         let a, _ = astep a (LClone (n 1, n hr)) in
-        (a, (t, { pc = 0; blocked = None; hs = Some hs; hr = Some hr; futs = [] }) :: ts)) (a0, []) progs in
+        (a, (t, { pc = 0; sub = 0; blocked = None; hs = Some hs; hr = Some hr; futs = [] }) :: ts)) (a0, []) progs in
   let a0, _ = astep a0 (LDropH (n 0)) in
   let a0, _ = astep a0 (LDropH (n 1)) in
   let ts = List.rev ts in
@@ -322,7 +323,7 @@ let check_outcome (cap : string) (progs : (int * (string list * string) list) li
       decr budget;
       if !budget <= 0 then true (* search budget exhausted: do not raise an alarm *)
       else
-        let key = Marshal.to_string (a, List.map (fun (t, s) -> (t, s.pc, s.blocked, s.hs, s.hr, s.futs)) ts) [] in
+        let key = Marshal.to_string (a, List.map (fun (t, s) -> (t, s.pc, s.sub, s.blocked, s.hs, s.hr, s.futs)) ts) [] in
         if Hashtbl.mem seen key then false
         else begin
           Hashtbl.add seen key ();
@@ -335,7 +336,7 @@ let check_outcome (cap : string) (progs : (int * (string list * string) list) li
                 let finish a1 (o : out) suffix_back s' =
                   let r = str_result o in
                   let r = if suffix_back then (match o.r_back with x :: _ -> r ^ " back:" ^ string_of_int (int_of_n x) | [] -> r) else r in
-                  r = observed && go a1 (set { s' with pc = s'.pc + 1; blocked = None }) in
+                  r = observed && go a1 (set { s' with pc = s'.pc + 1; sub = 0; blocked = None }) in
                 match s.blocked with
                 | Some (k, timed, optv) ->
                   let try_label l =
@@ -378,12 +379,22 @@ let check_outcome (cap : string) (progs : (int * (string list * string) list) li
                                                | None -> observed = "unit" && go a (set { s with pc = s.pc + 1 }))
                    | "dropr" -> (match s.hr with Some h -> run_labels [ LDropH (n h) ] { s with hr = None } ~blk:None ~optv:false
                                                | None -> observed = "unit" && go a (set { s with pc = s.pc + 1 }))
-                   | "clones" -> (match s.hs with
-                       | Some h -> let h' = new_id () in run_labels [ LClone (n h, n h'); LDropH (n h) ] { s with hs = Some h' } ~blk:None ~optv:false
-                       | None -> observed = "unit" && go a (set { s with pc = s.pc + 1 }))
-                   | "cloner" -> (match s.hr with
-                       | Some h -> let h' = new_id () in run_labels [ LClone (n h, n h'); LDropH (n h) ] { s with hr = Some h' } ~blk:None ~optv:false
-                       | None -> observed = "unit" && go a (set { s with pc = s.pc + 1 }))
+                   | "clones" | "cloner" ->
+                     (* two atomic steps: the clone, then the drop of the original *)
+                     let is_s = List.hd words = "clones" in
+                     (match (if is_s then s.hs else s.hr) with
+                      | None -> observed = "unit" && go a (set { s with pc = s.pc + 1; sub = 0 })
+                      | Some h ->
+                        if s.sub = 0 then begin
+                          let h' = new_id () in
+                          let a1, o = astep a (LClone (n h, n h')) in
+                          (match o.r_res with RInvalid | RHang -> false
+                                            | _ -> go a1 (set { s with sub = h' }))
+                        end else begin
+                          let h' = s.sub in
+                          let s' = if is_s then { s with hs = Some h' } else { s with hr = Some h' } in
+                          run_labels [ LDropH (n h) ] s' ~blk:None ~optv:false
+                        end)
                    | "len" -> any_h (fun h -> run_labels [ LObs (n h, OLen) ] s ~blk:None ~optv:false)
                    | "scount" -> any_h (fun h -> run_labels [ LObs (n h, OSenderCount) ] s ~blk:None ~optv:false)
                    | "rcount" -> any_h (fun h -> run_labels [ LObs (n h, OReceiverCount) ] s ~blk:None ~optv:false)
@@ -401,12 +412,16 @@ let check_outcome (cap : string) (progs : (int * (string list * string) list) li
                        | Some f -> run_labels [ LDropF (n f) ] { s with futs = List.remove_assoc (i (arg 1)) s.futs } ~blk:None ~optv:false
                        | None -> observed = "unit" && go a (set { s with pc = s.pc + 1 }))
                    | "teardown" ->
+                     (* one atomic step per dropped future / handle; other threads may run in between *)
                      let fl = List.sort compare s.futs in
-                     let ls = List.map (fun (_, f) -> LDropF (n f)) fl
-                              @ (match s.hs with Some h -> [ LDropH (n h) ] | None -> [])
-                              @ (match s.hr with Some h -> [ LDropH (n h) ] | None -> []) in
-                     if ls = [] then observed = "unit" && go a (set { s with pc = s.pc + 1 })
-                     else run_labels ls { s with futs = []; hs = None; hr = None } ~blk:None ~optv:false
+                     let step1 l s' =
+                       let a1, o = astep a l in
+                       (match o.r_res with RInvalid | RHang -> false | _ -> go a1 (set s')) in
+                     (match fl, s.hs, s.hr with
+                      | (k, f) :: _, _, _ -> step1 (LDropF (n f)) { s with futs = List.remove_assoc k s.futs }
+                      | [], Some h, _ -> step1 (LDropH (n h)) { s with hs = None }
+                      | [], None, Some h -> step1 (LDropH (n h)) { s with hr = None }
+                      | [], None, None -> observed = "unit" && go a (set { s with pc = s.pc + 1; sub = 0 }))
                    | _ -> true)
               end) ts
         end
